@@ -33,7 +33,7 @@ NJOBS = 12
 
 def is_shift(line):
     t = line.split()
-    return t[0] in oracle.SHIFTS or (t[0] == "imm" and t[1] in oracle.SHIFTS)
+    return t[0] in oracle.SHIFTS or (t[0] == "imm" and t[1] in oracle.SHIFTS) or t[0] in ("m:<<", "m:>>", "m:r<<")
 
 
 def run_impl(hx, lines, timeout=600):
@@ -95,6 +95,8 @@ def janet_expr(line):
         return "(compare (int/%s \"%s\") %s)" % (kind, t[1], opd("n:" + t[2]))
     if t[0] == "imm":
         return "((fn [x] (%s x %s)) %s)" % (t[1], t[3], opd(t[2]))
+    if t[0].startswith("m:"):
+        return "(:%s %s)" % (t[0][2:], " ".join(opd(x) for x in t[1:]))
     return "(%s %s)" % (t[0], " ".join(opd(x) for x in t[1:]))
 
 
@@ -201,6 +203,14 @@ def run(ctx):
             impl[i] = o
         crashes = c1 + c2
         ctx.say("implementation evaluated: %d under ASan+UBSan, %d (shifts) on the plain build, %d crash(es)" % (len(idx_rest), len(idx_shift), len(crashes)))
+    # `_vm_bitop` reports a bad right operand with janet_panicf("... got %f", op2) where op2 is a Janet, not a double: the text
+    # of the message is garbage and for some bit patterns the formatter gives up with "format buffer overflow".  An error is
+    # raised either way; canonicalised here (see notes/C14.md, observations).
+    for i, a in enumerate(impl):
+        if a == "err:other:format_buffer_overflow":
+            t = lines[i].split()
+            if (t[0] in ("band", "bor", "bxor") + oracle.SHIFTS or (t[0] == "imm" and t[1] in oracle.SHIFTS)) and all(x.startswith("n:") for x in t[1:] if ":" in x[:2]):
+                impl[i] = "err:rhs32"
     model = None
     if exe:
         model = ctx.model(lines, exe=exe)
@@ -231,6 +241,8 @@ def run(ctx):
         t = l.split()
         cls = "crash" if impl[i] in ("CRASH", "TIMEOUT") else "wrong-result"
         op = t[1] if t[0] == "imm" else t[0]
+        if len(t) > 3 and t[0] != "imm" and not t[0].startswith("cmp"):
+            op += "/variadic"
         sig = "%s:%s" % (cls, op)
         if sig in reported:
             continue
